@@ -7,8 +7,8 @@ _spec.loader.exec_module(_nodes)
 META = dict(
     engine="E-CHAIN",
     technique="Lean 4 proof (slash/simpleSlash reduced to one normal form under the pool invariant; decision logic of unjail; bit-array/counter lemma for downtime accounting; all on top of the structural invariant proved for arbitrary histories) + transition checking and rule monitors against the real PocketCoreApp",
-    level_text="Kernel-checked: every slash removes exactly min(requested, stake) ⊔ 0 tokens from the record and burns exactly that from pool and supply, touching no other record; a stake that falls below the minimum leaves the node jailed and in the waiting set; a jailed node has no staked-index entry and is never in the reported consensus set (C22); an unjail is accepted only from operator/output, with stake ≥ minimum, for a jailed node whose jail period has passed in block time (and, as coded, in wall-clock time: explicit parameter `now`, counterexample theorem); missed-block counter and bit array move together, the window reset clears both, exceeding window − minSigned jails in the same BeginBlock with the jail period set; counterexample theorem: a re-staked node inherits stale bits and its counter goes negative. Tie: histories with missed-vote patterns, double-sign evidence of various ages/heights, direct slashes around stake and minimum, BurnForChallenge, unjail attempts around JailedUntil; per phase the model transition is compared and the rules are evaluated on the implementation's own states.",
-    level_note=_nodes.NOTE + " The wall-clock read in ValidateUnjailMessage belongs to C12; here `now` is recorded by the harness and passed to the model.",
+    level_text="Kernel-checked: every slash removes exactly min(requested, stake) ⊔ 0 tokens from the record and burns exactly that from pool and supply, touching no other record; a stake that falls below the minimum leaves the node jailed and in the waiting set; a jailed node has no staked-index entry and is never in the reported consensus set (C22); an unjail is accepted exactly when it comes from operator/output for a jailed node with stake ≥ minimum whose jail period has passed in block time (unjail_requires + unjail_iff: the result depends on the store and the block time only — code after /repo 286039a; the monitor unjail-depends-on-wall-clock guards against the return of the time.Now() comparison); missed-block counter and bit array move together, the window reset clears both, exceeding window − minSigned jails in the same BeginBlock with the jail period set; counterexample theorem: a re-staked node inherits stale bits and its counter goes negative. Tie: histories with missed-vote patterns, double-sign evidence of various ages/heights, direct slashes around stake and minimum, BurnForChallenge, unjail attempts around JailedUntil; per phase the model transition is compared and the rules are evaluated on the implementation's own states.",
+    level_note=_nodes.NOTE + " The wall-clock read of ValidateUnjailMessage (C12) was removed by /repo 286039a; the model follows the fixed code and the monitor unjail-depends-on-wall-clock guards against its return.",
 )
 
 
